@@ -128,13 +128,39 @@ pub fn content_types(_a: &Value) -> Value {
     }
     let r = request(vec![call.clone()], "POST", None, true, 10000);
     if r.0 != 415 || r.2 != 0 { bad.push(json!({"content_type": null, "status": r.0})); }
+    // any other method is answered 405 - whatever its content type (also: none, or one that would be refused for a POST)
     for m in ["GET", "PUT", "DELETE", "PATCH", "HEAD", "OPTIONS"] {
-        let r = request(vec![call.clone()], m, Some("application/json"), true, 10000);
-        if r.0 != 405 || r.2 != 0 {
-            bad.push(json!({"method": m, "status": r.0, "handler_runs": r.2, "expected": 405}));
+        for ct in [Some("application/json"), Some("text/plain"), Some(""), None] {
+            let r = request(vec![call.clone()], m, ct, true, 10000);
+            if r.0 != 405 || r.2 != 0 {
+                bad.push(json!({"method": m, "content_type": ct, "status": r.0, "handler_runs": r.2, "expected": 405}));
+            }
         }
     }
     let violation = !bad.is_empty();
     json!({"scenario":"c19_content_types","observed":{"deviations":bad.iter().take(5).collect::<Vec<_>>()},"violation":violation,
            "why": if violation {"method / content-type gate deviates"} else {""}})
+}
+
+/// the same bytes with a Content-Length header and without one (as a chunked transfer has it): same answer, in particular right at the size limit
+pub fn content_length(_a: &Value) -> Value {
+    let call = br#"{"jsonrpc":"2.0","id":1,"method":"echo","params":["hello","world"]}"#.to_vec();
+    let n = call.len() as u32;
+    let mut bad = vec![];
+    for limit in [n - 1, n, n + 1, 10 * n] {
+        for frames in [vec![call.clone()], vec![call[..10].to_vec(), call[10..].to_vec()]] {
+            let with = request(frames.clone(), "POST", Some("application/json"), true, limit);
+            let without = request(frames.clone(), "POST", Some("application/json"), false, limit);
+            if with != without {
+                bad.push(json!({"limit": limit, "body_len": n, "frames": frames.len(), "with_header": [with.0, with.1, with.2], "without_header": [without.0, without.1, without.2]}));
+            }
+            let want_ok = n <= limit;
+            if (without.0 == 200) != want_ok {
+                bad.push(json!({"limit": limit, "body_len": n, "status_without_header": without.0}));
+            }
+        }
+    }
+    let violation = !bad.is_empty();
+    json!({"scenario":"c19_content_length","observed":{"deviations":bad.iter().take(4).collect::<Vec<_>>()},"violation":violation,
+           "why": if violation {"the same body bytes get a different answer depending on the Content-Length header"} else {""}})
 }
